@@ -210,6 +210,27 @@ func Scenarios() []*Scenario {
 		}
 		return [][]byte{s.NFT, gen.Big(1), []byte("nm"), {}, []byte("h"), {}, []byte("u")}
 	}
+	add(&Scenario{Name: "create/huge", Func: FNFTCreate, OwnField: "ESDTNFTCreate", Mult: 1,
+		Exec: func(s *Scn, g uint64) *node.Leg {
+			return s.U.N.Exec(gen.SelfCall(FNFTCreate, s.A, g, s.SFT, gen.Big(2), make([]byte, 300), gen.Big(1), make([]byte, 256), make([]byte, 70000), make([]byte, 65536), []byte("u")))
+		},
+		PerByte: func(s *Scn, l *node.Leg) map[string]uint64 {
+			return map[string]uint64{"StorePerByte": sumLen(l.Call.Args)}
+		}})
+	add(&Scenario{Name: "updattr/huge", Func: FNFTUpdAttr, OwnField: "ESDTNFTUpdateAttributes", Mult: 1,
+		Exec: func(s *Scn, g uint64) *node.Leg {
+			return s.U.N.Exec(gen.SelfCall(FNFTUpdAttr, s.A, g, s.SFT, gen.U64(1), make([]byte, 65537)))
+		},
+		PerByte: func(s *Scn, l *node.Leg) map[string]uint64 {
+			return map[string]uint64{"StorePerByte": uint64(len(l.Call.Args[2]))}
+		}})
+	add(&Scenario{Name: "savekv/huge", Func: FSaveKV, OwnField: "SaveKeyValue", Mult: 1,
+		Exec: func(s *Scn, g uint64) *node.Leg {
+			return s.U.N.Exec(node.Call{Func: FSaveKV, Caller: s.A, Recipient: s.A, Args: [][]byte{make([]byte, 300), make([]byte, 66000)}, Gas: g})
+		},
+		PerByte: func(s *Scn, l *node.Leg) map[string]uint64 {
+			return map[string]uint64{"PersistPerByte": 66300, "StorePerByte": 66000}
+		}})
 	for _, bigv := range []bool{false, true} {
 		bigv := bigv
 		name := "create/small"
